@@ -513,6 +513,10 @@ class Life:
     # ---- building
 
     def build(self, mode, failer_first):
+        if any(spec.get(a) == 0 for spec in self.specs for a in ('t_on', 't_off', 'dur')):
+            # a zero-length timer delivers its event at once, as a nested event() of the block (`_start_timer`):
+            # not modelled - nothing of such a scenario is compared with the model, the oracle judges it
+            self.cut_here()
         edzed.reset_circuit()
         self.circuit = edzed.get_circuit()
         self.circuit.set_persistent_data(self.store)
@@ -1399,8 +1403,26 @@ def _bogus_seed(trig):
             'restarts': [{'snap': -1, 'down': 'short', 'exp': ['none'], 'drop': [], 'nopersist': [], 'sync': [True]}]}
 
 
+def _zero_timer_seed(kind):
+    """zero-length timers: the timed event is delivered inside `_start_timer`, as a nested event() of the block, while
+    the transition into the timed state is still in progress (Timer: start -> on -> at once off; InputExp: put -> valid
+    -> at once expired); oracle only"""
+    t0 = WALL0
+    if kind == 'timer':
+        blk = {'kind': 'timer', 'name': 'b0', 'restartable': True, 't_on': 0, 't_off': None, 'p': True, 's': True, 'exp': None}
+        ops = [['adv', t0 + 32 * TICK], ['ev', 0, 'n.start', None], ['adv', t0 + 40 * TICK], ['ev', 0, 'n.toggle', None]]
+    else:
+        blk = {'kind': 'inputexp', 'name': 'b0', 'dur': 0, 'expired': 'EXP', 'initdef': None, 'p': True, 's': True, 'exp': None}
+        ops = [['adv', t0 + 32 * TICK], ['ev', 0, 'put', ['v']], ['adv', t0 + 40 * TICK], ['ev', 0, 'put', [5]]]
+    return {'family': 'a', 'blocks': [blk], 't0': t0, 'mode': 'ok', 'failer_first': False, 'ops': ops,
+            't_stop': t0 + 48 * TICK, 'store0': [],
+            'restarts': [{'snap': 2, 'down': 'short', 'exp': ['none'], 'drop': [], 'nopersist': [], 'sync': [True]}]}
+
+
 def scenarios(rng, tier):
     yield _defect8_seed()
+    yield _zero_timer_seed('timer')
+    yield _zero_timer_seed('inputexp')
     yield _chain_seed(True)
     yield _chain_seed(False)
     yield _chain_seed(True, via_goto=True)
